@@ -70,6 +70,10 @@ func (t Text) Index(k any) (any, error) {
 	if err != nil {
 		return nil, err
 	} else if index.Slice {
+		if index.Lower == index.Upper {
+			// An empty text is always nil.
+			return Text(nil), nil
+		}
 		return t[index.Lower:index.Upper], nil
 	} else {
 		return t[index.Lower], nil
